@@ -120,7 +120,8 @@ func genC05(r *Rng, tier string, idx int) *Plan {
 	p.Spec = genSpec(r, genOpts{Filters: 1, AllowRedis: true, Triggers: true, Logout: 1})
 	f := &p.Spec.Filters[0]
 	// cookie-name prefixes over RFC 6265 token characters
-	f.CookiePrefix = r.Pick([]string{"", "a", "my-app", "A.b~c", "x_1", "p!#$%&'*+-.^_`|~q", "0", "-authservice-session-id-cookie"})
+	f.CookiePrefix = r.Pick([]string{"", "a", "my-app", "A.b~c", "x_1", "p!#$%&'*+-.^_`|~q", "0", "-authservice-session-id-cookie",
+		"__Secure-app", "__secure-x", "__host-app", "__HOST-A", "__Host-", "__Host-app"}) // (a prefix that looks like a cookie-name prefix is a token like any other)
 	k := &p.Spec.IdPs[0].Knobs
 	if k.Refresh == "none" && r.Bool() {
 		k.Refresh = "static"
